@@ -47,6 +47,9 @@ func Truncate(path string, capacity int64, f *os.File) error {
 // syncDir makes the entries of a directory (creations and removals of files
 // in it) durable.
 func syncDir(dir string) error {
+	if h, _, herr := verifFS("syncdir", dir, 0, nil); h {
+		return herr
+	}
 	d, err := os.Open(dir)
 	if err != nil {
 		return err
